@@ -190,3 +190,101 @@ def wide_instruction_stratum(ctx, d, n):
             if p + 1 < len(fields):
                 d.run_pattern([{m: [RG_name(f) for f in fields[:p]] + [{"$not": ["zzz"]}, RG_name(fields[p + 1])]}], "base", True)
         ctx.event("wide_instruction_probes")
+
+
+def not_grid_stratum(ctx, ws):
+    """Exhaustive grid for instruction-level $not, identical at every seed, with expectations computed by the plain definition on mnemonic
+    sequences (no model): pattern shapes [$not X, Y], [Y, $not X], [$not X], [Y, $not X, Z] over a fixed listing; X is a mnemonic, a
+    sequence ($and), an alternation ($or), or a negation; `$not X` consumes exactly one instruction at which X does not match."""
+    from . import real
+    seq = ["a", "b", "c", "a", "a", "b", "c", "c", "b", "a", "c", "a", "b"]
+    names = {"a": "push", "b": "pop", "c": "call"}
+    insts, addr = [], 0x401000
+    for m in seq:
+        insts.append(L.SInst(addr, names[m], [], None, None, 1))
+        addr += 1
+    lp = ws.write("notgrid.s", L.render(insts, ctx.rng, labels=False))
+    n = len(seq)
+    X = [("m", "a"), ("m", "b"), ("m", "c"), ("and", "ab"), ("and", "bc"), ("and", "abc"), ("and", "cc"), ("or", "ab"), ("or", "bc"), ("not", "a"), ("not", "c"),
+         ("and", "aab"), ("or", "ac")]
+
+    def x_matches(x, i):
+        kind, arg = x
+        if kind == "m":
+            return i < n and seq[i] == arg
+        if kind == "and":
+            return i + len(arg) <= n and all(seq[i + k] == ch for k, ch in enumerate(arg))
+        if kind == "or":
+            return i < n and seq[i] in arg
+        return i < n and seq[i] != arg          # not
+
+    def x_yaml(x):
+        kind, arg = x
+        if kind == "m":
+            return names[arg]
+        if kind == "and":
+            return {"$and": [names[ch] for ch in arg]}
+        if kind == "or":
+            return {"$or": [names[ch] for ch in arg]}
+        return {"$not": [names[arg]]}
+
+    cells = []
+    for x in X:
+        cells.append(("N", x, None, None))
+        for y in "abc":
+            cells.append(("NY", x, y, None))
+            cells.append(("YN", x, y, None))
+            for z in "ac":
+                cells.append(("YNZ", x, y, z))
+    for ci, (shape, x, y, z) in enumerate(cells):
+        if ci % ctx.nshards != ctx.shard:
+            continue
+        nx = {"$not": [x_yaml(x)]}
+        pat = {"N": [nx], "NY": [nx, names.get(y)], "YN": [names.get(y), nx], "YNZ": [names.get(y), nx, names.get(z)]}[shape]
+        starts = []
+        for i in range(n):
+            if shape == "N":
+                ok = not x_matches(x, i)
+            elif shape == "NY":
+                ok = not x_matches(x, i) and i + 1 < n and seq[i + 1] == y
+            elif shape == "YN":
+                ok = seq[i] == y and i + 1 < n and not x_matches(x, i + 1)
+            else:
+                ok = seq[i] == y and i + 1 < n and not x_matches(x, i + 1) and i + 2 < n and seq[i + 2] == z
+            if ok:
+                starts.append(i)
+        width = {"N": 1, "NY": 2, "YN": 2, "YNZ": 3}[shape]
+        want, last = [], -1
+        for i in starts:                       # leftmost non-overlapping scan
+            if i > last:
+                want.append(format(0x401000 + i, "x"))
+                last = i + width - 1
+        rule = real.dump_rule({"config": {"mnemonics-full-match": True}, "pattern": pat})
+        r = real.match(ws.write("notgrid.yaml", rule), lp, ret="list", search="all", only_addr=False)
+        ctx.ran()
+        ctx.event("not_grid_cells")
+        ctx.case(("notgrid", shape, x, y, z), True, stratum="not grid", outcome="found" if r[0] == "ok" and r[1] else "exc" if r[0] != "ok" else "not found")
+        got = [h.split("::")[0] for h in r[1]] if r[0] == "ok" else None
+        widths_ok = r[0] == "ok" and all(h.count("|") == width for h in r[1])
+        if got != want or not widths_ok:
+            ctx.disagreement({"notgrid": True, "rule": rule, "want": want, "width": width},
+                             f"not grid: pattern {pat} on {' '.join(names[m] for m in seq)}: expected hits at {want} of {width} instruction(s) each, got "
+                             f"{[(h.split('::')[0], h.count('|')) for h in r[1]] if r[0] == 'ok' else r[1:3]}")
+
+
+def replay_not_grid(ctx, case):
+    import random
+    from . import real
+    ws = real.Workspace()
+    seq = ["a", "b", "c", "a", "a", "b", "c", "c", "b", "a", "c", "a", "b"]
+    names = {"a": "push", "b": "pop", "c": "call"}
+    insts, addr = [], 0x401000
+    for m in seq:
+        insts.append(L.SInst(addr, names[m], [], None, None, 1))
+        addr += 1
+    lp = ws.write("notgrid.s", L.render(insts, random.Random(0), labels=False))
+    r = real.match(ws.write("notgrid.yaml", case["rule"]), lp, ret="list", search="all", only_addr=False)
+    ctx.ran()
+    got = [h.split("::")[0] for h in r[1]] if r[0] == "ok" else None
+    if got != case["want"] or not all(h.count("|") == case["width"] for h in r[1]):
+        ctx.disagreement(case, f"not grid cell: expected {case['want']}, got {str(r[1:2])[:200]}")
